@@ -1,3 +1,74 @@
+/-
+  C17 — re-enabled opcodes compute the functions their names denote.
+  `Spec.execExtended` states those functions (concatenation, substring, left/right, bitwise NOT/AND/OR/XOR
+  on equal lengths, doubling, halving and product/quotient/remainder with C truncation, shifts as
+  multiplication / floor division by 2^b, all on script numbers with explicit failure on invalid operands).
+-/
 import Btcdeb
+import BtcdebProofs.Refine.All
+import BtcdebProofs.Lemmas.NoAbnormal
 namespace Btcdeb.Proofs.C17
+open Btcdeb Btcdeb.Model Btcdeb.Refine
+
+/-- the fifteen opcodes of the property -/
+def reenabled : List Opcode :=
+  [.OP_CAT, .OP_SUBSTR, .OP_LEFT, .OP_RIGHT, .OP_INVERT, .OP_AND, .OP_OR, .OP_XOR,
+   .OP_2MUL, .OP_2DIV, .OP_MUL, .OP_DIV, .OP_MOD, .OP_LSHIFT, .OP_RSHIFT]
+
+theorem reenabled_iff (op : Opcode) : op ∈ reenabled ↔ isDisabledOpcode op = true := by
+  cases op <;> simp [reenabled, isDisabledOpcode]
+
+/-- with the option, each of the fifteen opcodes computes exactly the specified function on every stack,
+    and fails with the specified script error on invalid operands — never abnormally -/
+theorem C17_computes (op : Opcode) (_h : op ∈ reenabled) : OpRefines op := execOpcode_refines op
+
+/-- …in particular no operand makes them crash: division by zero, negative or huge shift counts,
+    out-of-range offsets and results outside the 64-bit range are script errors -/
+theorem C17_total (e : SEE) (op : Opcode) (h : op ∈ reenabled) : NoAbn (stepExtended e op) :=
+  stepExtended_noabn e op ((reenabled_iff op).mp h)
+
+/-- without the option each of them fails as a disabled opcode — executed or not — unless the
+    operation-count limit is hit first (the count is checked before, as in Bitcoin Core) -/
+theorem C17_disabled_gate (cx : Ctx) (e : SEE) (pc : Bytes) (g : GotOp)
+    (hg : getOp pc = some g) (hop : Opcode.ofNat g.opcode ∈ reenabled) (hz : e.allowDisabled = false) :
+    step cx e pc = fail .DISABLED_OPCODE ∨ step cx e pc = fail .OP_COUNT := by
+  have hdis : isDisabledOpcode (Opcode.ofNat g.opcode) = true := (reenabled_iff _).mp hop
+  -- a disabled opcode carries no push data
+  have hdata : g.data = [] ∧ g.opcode > Op.OP_PUSHDATA4 := by
+    have : ¬ g.opcode ≤ 78 := by
+      intro hle
+      have : ∀ n, n ≤ 78 → isDisabledOpcode (Opcode.ofNat n) = false := by decide
+      rw [this g.opcode hle] at hdis; cases hdis
+    unfold getOp at hg
+    cases pc with
+    | nil => cases hg
+    | cons b rest =>
+      simp only at hg
+      split at hg
+      · rename_i hle
+        exfalso
+        split at hg
+        · cases hg
+        · split at hg
+          · cases hg
+          · cases hg; exact this hle
+      · rename_i hgt
+        cases hg; exact ⟨rfl, by simp only [Op.OP_PUSHDATA4] at hgt ⊢; omega⟩
+  unfold step
+  simp only [hg, hdata.1, List.length_nil]
+  have h520 : ¬ (0 > Gen.MAX_SCRIPT_ELEMENT_SIZE) := by decide
+  simp only [h520, if_false]
+  unfold countOp
+  by_cases hsv : (e.sigversion == .BASE || e.sigversion == .WITNESS_V0) = true
+  · have h16 : g.opcode > Op.OP_16 := by
+      -- every re-enabled opcode is above OP_16
+      have : ∀ n, n ≤ 0x60 → isDisabledOpcode (Opcode.ofNat n) = false := by decide
+      have hgt : ¬ g.opcode ≤ 0x60 := by intro hle; rw [this g.opcode hle] at hdis; cases hdis
+      simp only [Op.OP_16]; omega
+    simp only [hsv, h16, if_true]
+    by_cases hcnt : e.nOpCount + 1 > Gen.MAX_OPS_PER_SCRIPT
+    · right; simp [hcnt]
+    · left; simp [hcnt, hz, hdis]
+  · left; simp [hsv, hz, hdis]
+
 end Btcdeb.Proofs.C17
